@@ -5,7 +5,7 @@ use crate::area_green::GEl;
 use crate::interp::Ctx;
 use crate::reftree::{Arena, Nav2};
 use crate::util::*;
-use cstree::syntax::{ResolvedElementRef, ResolvedNode, ResolvedToken, SyntaxElement, SyntaxElementRef, SyntaxNode, SyntaxToken};
+use cstree::syntax::{ResolvedElement, ResolvedElementRef, ResolvedNode, ResolvedToken, SyntaxElement, SyntaxElementRef, SyntaxNode, SyntaxToken};
 use cstree::text::{TextRange, TextSize};
 use cstree::traversal::{Direction, WalkEvent};
 use cstree::util::{NodeOrToken, TokenAtOffset};
@@ -142,6 +142,119 @@ macro_rules! token_ops {
     }};
 }
 
+/// the element-level forwarders, instantiated for `SyntaxElement`, `SyntaxElementRef`, `ResolvedElement`, `ResolvedElementRef`
+macro_rules! elem_ops {
+    ($e:expr, $ws:expr) => {{
+        let e = $e;
+        match $ws {
+            ["parent"] => Nav::Opt(e.parent().map(|x| x.to_el())),
+            ["ancestors"] => Nav::List(e.ancestors().map(|x| x.to_el()).collect()),
+            ["first_token"] => Nav::Opt(e.first_token().map(|x| x.to_el())),
+            ["last_token"] => Nav::Opt(e.last_token().map(|x| x.to_el())),
+            ["next_sibling_or_token"] => Nav::Opt(e.next_sibling_or_token().map(|x| x.to_el())),
+            ["prev_sibling_or_token"] => Nav::Opt(e.prev_sibling_or_token().map(|x| x.to_el())),
+            _ => Nav::NA,
+        }
+    }};
+}
+
+pub fn resolved_elem(e: &El) -> ResolvedElement<K> {
+    match e {
+        NodeOrToken::Node(n) => ResolvedElement::from(n.resolved().clone()),
+        NodeOrToken::Token(t) => ResolvedElement::from(t.resolved().clone()),
+    }
+}
+
+fn hash_of<T: std::hash::Hash>(x: &T) -> u64 {
+    use std::hash::Hasher;
+    let mut h = std::collections::hash_map::DefaultHasher::new();
+    x.hash(&mut h);
+    h.finish()
+}
+
+/// Every API surface reports the same kind and span for one element: the element enum (owned and by reference), the
+/// resolved wrappers (node / token, element enum owned and by reference).  Returns a description of the first difference.
+pub fn surfaces_disagree(e: &El) -> Option<String> {
+    let base = (e.syntax_kind(), e.text_range(), e.kind().0);
+    let er: SyntaxElementRef<'_, K> = e.into();
+    let re = resolved_elem(e);
+    let rr: ResolvedElementRef<'_, K> = (&re).into();
+    let direct = match e {
+        NodeOrToken::Node(n) => (n.syntax_kind(), n.text_range(), n.kind().0),
+        NodeOrToken::Token(t) => (t.syntax_kind(), t.text_range(), t.kind().0),
+    };
+    let wrapped = match e {
+        NodeOrToken::Node(n) => (n.resolved().syntax_kind(), n.resolved().text_range(), n.resolved().kind().0),
+        NodeOrToken::Token(t) => (t.resolved().syntax_kind(), t.resolved().text_range(), t.resolved().kind().0),
+    };
+    let all = [
+        ("node/token", direct),
+        ("SyntaxElementRef", (er.syntax_kind(), er.text_range(), er.kind().0)),
+        ("resolved node/token", wrapped),
+        ("ResolvedElement", (re.syntax_kind(), re.text_range(), re.kind().0)),
+        ("ResolvedElementRef", (rr.syntax_kind(), rr.text_range(), rr.kind().0)),
+    ];
+    for (name, v) in all {
+        if v != base {
+            return Some(format!("{} reports {:?} but SyntaxElement reports {:?}", name, v, base));
+        }
+    }
+    if base.0 .0 != base.2 {
+        return Some(format!("kind() is {} but syntax_kind() is {}", base.2, base.0 .0));
+    }
+    // the wrappers' own identity conversions
+    match e {
+        NodeOrToken::Node(n) => {
+            let rn = n.resolved();
+            let via: ResolvedElementRef<'_, K> = rn.into();
+            if !std::ptr::eq(rn.resolved(), rn) || rn.try_resolved().map(|x| x as *const _) != Some(rn as *const _) || via.syntax_kind() != base.0 || via.text_range() != base.1 {
+                return Some("ResolvedNode::resolved / try_resolved / into ResolvedElementRef is not the node itself".into());
+            }
+        }
+        NodeOrToken::Token(t) => {
+            let rt = t.resolved();
+            let via: ResolvedElementRef<'_, K> = rt.into();
+            if !std::ptr::eq(rt.resolved(), rt) || rt.try_resolved().map(|x| x as *const _) != Some(rt as *const _) || via.syntax_kind() != base.0 || via.text_range() != base.1 {
+                return Some("ResolvedToken::resolved / try_resolved / into ResolvedElementRef is not the token itself".into());
+            }
+        }
+    }
+    // accessors of the enum
+    let is_node = matches!(e, NodeOrToken::Node(_));
+    if e.as_node().is_some() != is_node || e.as_token().is_some() == is_node || e.clone().into_node().is_some() != is_node || e.clone().into_token().is_some() == is_node {
+        return Some("as_node / as_token / into_node / into_token disagree with the variant".into());
+    }
+    None
+}
+
+/// `==` / `Hash` / `Clone` of the resolved wrappers are those of what they wrap
+pub fn wrapper_identity_disagrees(a: &El, b: &El) -> Option<String> {
+    let (ra, rb) = (resolved_elem(a), resolved_elem(b));
+    if (ra == rb) != (a == b) {
+        return Some(format!("resolved wrappers compare {} but the elements compare {}", ra == rb, a == b));
+    }
+    if a == b && hash_of(&ra) != hash_of(&rb) {
+        return Some("equal resolved wrappers hash differently".into());
+    }
+    if hash_of(&ra) != hash_of(&ra.clone()) || ra.clone() != ra {
+        return Some("a cloned resolved wrapper is not equal to the original".into());
+    }
+    match (a, b) {
+        (NodeOrToken::Node(x), NodeOrToken::Node(y)) => {
+            if (x.resolved() == y.resolved()) != (x == y) || (x == y && hash_of(x.resolved()) != hash_of(y.resolved())) {
+                return Some("ResolvedNode ==/Hash differs from SyntaxNode ==/Hash".into());
+            }
+        }
+        (NodeOrToken::Token(x), NodeOrToken::Token(y)) => {
+            if (x.resolved() == y.resolved()) != (x == y) || (x == y && hash_of(x.resolved()) != hash_of(y.resolved())) {
+                return Some("ResolvedToken ==/Hash differs from SyntaxToken ==/Hash".into());
+            }
+        }
+        _ => {}
+    }
+    None
+}
+
 pub struct RTree {
     pub root:     ResolvedNode<K>,
     pub slot:     usize,
@@ -157,6 +270,9 @@ pub struct RedState {
     pub elems:    Vec<(usize, El)>,
     pub ids:      HashMap<(usize, El), usize>,
     pub resolved: bool,
+    /// 0 plain, 1 resolved, 2 `SyntaxElement`, 3 `SyntaxElementRef`, 4 `ResolvedElement`, 5 `ResolvedElementRef` (element-level
+    /// requests go through the enum's forwarders; everything else through the plain (2, 3) / resolved (4, 5) node and token API)
+    pub surface:  u8,
 }
 
 fn range_of(e: &El) -> (usize, usize) {
@@ -232,6 +348,17 @@ impl BuilderArea {
             Some(i) => *i,
             None => {
                 let i = self.red.elems.len();
+                // the element seen through every API surface, and the wrappers' identity against the previous element
+                let prev = self.red.elems.iter().rev().find(|(tt, _)| *tt == t).map(|(_, p)| p.clone());
+                let r = catch(|| (surfaces_disagree(e), prev.as_ref().and_then(|p| wrapper_identity_disagrees(e, p)), wrapper_identity_disagrees(e, e)));
+                match r {
+                    Ok((a, b, c)) => {
+                        for m in [a, b, c].into_iter().flatten() {
+                            cx.fail("C03", format!("{}: {}", what, m));
+                        }
+                    }
+                    Err(m) => cx.fail("C03", format!("{}: reading the element through the API surfaces panicked: {}", what, m)),
+                }
                 self.red.elems.push((t, e.clone()));
                 self.red.ids.insert(key, i);
                 i
@@ -271,7 +398,16 @@ impl BuilderArea {
     pub fn red_step(&mut self, ws: &[&str], cx: &mut Ctx<'_>) -> Option<String> {
         let ans = match ws {
             ["api", m] => {
-                self.red.resolved = *m == "resolved";
+                self.red.surface = match *m {
+                    "resolved" => 1,
+                    "elem" => 2,
+                    "elemref" => 3,
+                    "relem" => 4,
+                    "relemref" => 5,
+                    _ => 0,
+                };
+                self.red.resolved = matches!(self.red.surface, 1 | 4 | 5);
+                cx.count(&format!("api.{}", m));
                 "ok".into()
             }
             ["red", gref] => match self.elem_at(gref) {
@@ -292,14 +428,36 @@ impl BuilderArea {
                 let Some(id) = eref.strip_prefix('e').and_then(|s| s.parse::<usize>().ok()) else { return Some("bad-op".into()) };
                 let Some((t, e)) = self.red.elems.get(id).cloned() else { return Some("bad-op".into()) };
                 let resolved = self.red.resolved;
+                let surf = self.red.surface;
                 cx.count(&format!("nav.{}", rest.first().unwrap_or(&"?")));
                 let what = format!("{} from e{}", rest.join(" "), id);
                 let res: Result<Nav, String> = catch(|| match (&e, rest) {
                     (_, ["root"]) => match &e {
-                        NodeOrToken::Node(n) => Nav::Opt(Some(n.root().to_el())),
+                        NodeOrToken::Node(n) => Nav::Opt(Some(if resolved { n.resolved().root().to_el() } else { n.root().to_el() })),
                         NodeOrToken::Token(tk) => Nav::Opt(Some(tk.parent().root().to_el())),
                     },
                     (_, ["range"]) => Nav::NA,
+                    (_, ws)
+                        if surf >= 2
+                            && matches!(ws, ["parent"] | ["ancestors"] | ["first_token"] | ["last_token"] | ["next_sibling_or_token"] | ["prev_sibling_or_token"]) =>
+                    {
+                        match surf {
+                            2 => elem_ops!(&e, *ws),
+                            3 => {
+                                let er: SyntaxElementRef<'_, K> = (&e).into();
+                                elem_ops!(er, *ws)
+                            }
+                            4 => {
+                                let re = resolved_elem(&e);
+                                elem_ops!(&re, *ws)
+                            }
+                            _ => {
+                                let re = resolved_elem(&e);
+                                let rr: ResolvedElementRef<'_, K> = (&re).into();
+                                elem_ops!(rr, *ws)
+                            }
+                        }
+                    }
                     (NodeOrToken::Node(n), ws) => {
                         if resolved {
                             node_ops!(n.resolved(), *ws)
@@ -993,17 +1151,61 @@ impl BuilderArea {
                 cx.count(&format!("fmt.{}", what));
                 let x = self.red.trees[t].pos.get(&id).cloned();
                 // two routes: external resolver on the plain API, attached resolver through the std traits
-                let r = catch(|| match (*what, &e) {
-                    ("display", NodeOrToken::Node(n)) => (n.display(&snap), format!("{}", n.resolved())),
-                    ("display", NodeOrToken::Token(k)) => (k.display(&snap), format!("{}", k.resolved())),
-                    ("debug", NodeOrToken::Node(n)) => (n.debug(&snap, false), format!("{:?}", n.resolved())),
-                    ("debug", NodeOrToken::Token(k)) => (k.debug(&snap), format!("{:?}", k.resolved())),
-                    ("debug_rec", NodeOrToken::Node(n)) => (n.debug(&snap, true), format!("{:#?}", n.resolved())),
-                    ("debug_rec", NodeOrToken::Token(k)) => {
-                        let er: SyntaxElementRef<'_, K> = NodeOrToken::Token(k);
-                        (er.debug(&snap, true), format!("{:#?}", k.resolved()))
+                let r = catch(|| {
+                    let (a, b) = match (*what, &e) {
+                        ("display", NodeOrToken::Node(n)) => (n.display(&snap), format!("{}", n.resolved())),
+                        ("display", NodeOrToken::Token(k)) => (k.display(&snap), format!("{}", k.resolved())),
+                        ("debug", NodeOrToken::Node(n)) => (n.debug(&snap, false), format!("{:?}", n.resolved())),
+                        ("debug", NodeOrToken::Token(k)) => (k.debug(&snap), format!("{:?}", k.resolved())),
+                        ("debug_rec", NodeOrToken::Node(n)) => (n.debug(&snap, true), format!("{:#?}", n.resolved())),
+                        ("debug_rec", NodeOrToken::Token(k)) => {
+                            let er: SyntaxElementRef<'_, K> = NodeOrToken::Token(k);
+                            (er.debug(&snap, true), format!("{:#?}", k.resolved()))
+                        }
+                        _ => (String::new(), String::new()),
+                    };
+                    // every other way of asking for the same output: the `write_*` forms, the element enums, the std traits on
+                    // the resolved element enum
+                    let mut routes: Vec<(&'static str, String)> = vec![];
+                    let er: SyntaxElementRef<'_, K> = (&e).into();
+                    let re = resolved_elem(&e);
+                    let rec = *what == "debug_rec";
+                    let mut w = |name: &'static str, f: &mut dyn FnMut(&mut String) -> std::fmt::Result| {
+                        let mut buf = String::new();
+                        if f(&mut buf).is_err() {
+                            buf.push_str("<fmt error>");
+                        }
+                        routes.push((name, buf));
+                    };
+                    if *what == "display" {
+                        match &e {
+                            NodeOrToken::Node(n) => w("SyntaxNode::write_display", &mut |b| n.write_display(&snap, b)),
+                            NodeOrToken::Token(k) => w("SyntaxToken::write_display", &mut |b| k.write_display(&snap, b)),
+                        }
+                        w("SyntaxElement::write_display", &mut |b| e.write_display(&snap, b));
+                        w("SyntaxElementRef::write_display", &mut |b| er.write_display(&snap, b));
+                        routes.push(("SyntaxElement::display", e.display(&snap)));
+                        routes.push(("SyntaxElementRef::display", er.display(&snap)));
+                        routes.push(("ResolvedElement::display", re.display(&snap)));
+                        routes.push(("Display for ResolvedElement", format!("{}", re)));
+                    } else {
+                        match &e {
+                            NodeOrToken::Node(n) => w("SyntaxNode::write_debug", &mut |b| n.write_debug(&snap, b, rec)),
+                            NodeOrToken::Token(k) => w("SyntaxToken::write_debug", &mut |b| k.write_debug(&snap, b)),
+                        }
+                        w("SyntaxElement::write_debug", &mut |b| e.write_debug(&snap, b, rec));
+                        w("SyntaxElementRef::write_debug", &mut |b| er.write_debug(&snap, b, rec));
+                        routes.push(("SyntaxElement::debug", e.debug(&snap, rec)));
+                        routes.push(("SyntaxElementRef::debug", er.debug(&snap, rec)));
                     }
-                    _ => (String::new(), String::new()),
+                    let differing: Vec<&'static str> = routes.iter().filter(|(_, v)| *v != a).map(|(n, _)| *n).collect();
+                    (a, b, differing)
+                });
+                let r = r.map(|(a, b, differing)| {
+                    if !differing.is_empty() {
+                        cx.fail("C19", format!("{} of e{} differs between the node/token method and {}", what, id, differing.join(", ")));
+                    }
+                    (a, b)
                 });
                 match r {
                     Err(m) => {
